@@ -1524,7 +1524,7 @@ def correspondence(ctx) -> CorrResult:
             m, o, s = sh[i]
             res.disagreements.append(Disagreement(
                 f"compile: {what.get(diffs[i] if i < len(diffs) else 0, '?')}",
-                {"source": s, "context": m["context"]}, "Coq model result differs",
+                {"source": s, "context": m["context"], "model": m}, "Coq model result differs",
                 o.get("err") or {"xtrings": o["xtrings"], "quantities": o["quantities"]}))
     return res
 
@@ -1814,6 +1814,27 @@ def probe_models():
     return [m1, m2, m3], [c1, c2, c3]
 
 
+def sweep_model():
+    """one equation per pseudofunction spelling and shift (None = default): systematic check of every template,
+    default shift and table entry"""
+    nodes = [("item", ("kw", "qty", "TV", 0))]
+    eqs = [("item", ("kw", "eqn", "T", 0))]
+    what = []
+    i = 0
+    for f in PSEUDO_NAMES:
+        for k in (None, -1, -2, -3, 2):
+            v = f"v{i}"
+            i += 1
+            nodes.append(("item", ("qty", [], lit(v))))
+            arg = ("bin", "Add", "caret", ("name", lit("v0"), ("z", -1, "curly")),
+                   ("bin", "Mul", "caret", ("name", lit(v), ("z", 1, "square")), ("name", lit("v1"), ("z", 0, "curly"))))
+            rhs = ("bin", "Mul", "caret", ("num", 5, 1), ("pseudo", f, arg, k))
+            eqs.append(("item", ("eqn", [], {"lhs": ("name", lit(v), ("z", 0, "curly")), "assign": False, "rhs": rhs,
+                                              "tails": []}, None)))
+            what.append((f, k))
+    return {"context": {}, "nodes": nodes + eqs}, what
+
+
 def _falsify_worker(job):
     import random
     i, model, seeds, feats = job
@@ -1856,6 +1877,17 @@ def falsify(ctx, hints):
                 fails.append(Failure("probe-control:" + f.key, f.what, f.input, f.observed, f.required, f.repro))
             else:
                 fails.append(Failure(key, f.what, f.input, f.observed, f.required, f.repro))
+    # 1b. every pseudofunction spelling x shift
+    model, what = sweep_model()
+    src = Render(random.Random(1), restyle=False, noisy=False).source(model)
+    fs = check_model(model, src, 4242, key_prefix="pseudo-sweep:")
+    info["probes"]["pseudo-sweep"] = "ok" if not fs else fs[0].what[:160]
+    for f in fs:
+        eqi = (f.input or {}).get("equation")
+        if eqi is not None and eqi < len(what):
+            f.key = f"pseudo:formula:{what[eqi][0]}"
+            f.what = f"{what[eqi][0]}(e{'' if what[eqi][1] is None else ', ' + str(what[eqi][1])}): " + f.what
+        fails.append(f)
     feats = excluded_features() | broken_feats
     # 2. inputs on which model and implementation disagreed
     for d in hints.get("disagreements", [])[:10]:
